@@ -1,11 +1,10 @@
 (* Proofs/Frame.v -- property C08: compositionality of rendering.
    (a) render_app: the element fold splits at any point of the list;
    (b) frame: every function of the render fixpoint restores the block stack,
-       the partial-block stack, the indent string, root and dev templates, and
-       can only clear the escape toggle; the two further claims of the property
-       (partial-block depth, current template name) are refuted on the model;
-   (c) flags_irrelevant: with no indent string the three "last write" flags
-       influence nothing but themselves. *)
+       the partial-block stack and depth, the current template name, the indent
+       string, root and dev templates, and can only clear the escape toggle;
+   (c) flags_irrelevant (the three "last write" flags influence nothing but
+       themselves when no indentation is active) is in Proofs/FrameFlags.v. *)
 From HB Require Export Proofs.RenderScaffold Reg.RegOps Spec.RenderFrameSpec.
 Open Scope N_scope.
 
@@ -16,10 +15,13 @@ Lemma render_app reg data ft f name A B mp s :
                                             (attach_render (MkT name (A ++ B) mp) idx))
                   A 0%nat (set_current s name))
         (fun _ s1 =>
-           fold_idx (fun e idx s' => rmap_err (render_element reg data ft f e s')
-                                              (attach_render (MkT name (A ++ B) mp) idx))
-                    B (List.length A) s1).
-Proof. rewrite render_template_eq. cbn [t_els t_name]. rewrite fold_idx_app. reflexivity. Qed.
+           rbind (fold_idx (fun e idx s' => rmap_err (render_element reg data ft f e s')
+                                                     (attach_render (MkT name (A ++ B) mp) idx))
+                           B (List.length A) s1)
+                 (fun _ s' => ROk tt (set_current s' (s_current s)))).
+Proof.
+  rewrite render_template_eq. cbn [t_els t_name]. rewrite fold_idx_app, rbind_assoc. reflexivity.
+Qed.
 
 (* on the Ok path the error decoration is invisible: rendering A ++ B succeeds
    iff A succeeds and then B succeeds from the state A left *)
@@ -33,26 +35,49 @@ Proof.
   - apply (proj2 (Hs _ i _ _ _)) in H1. rewrite H1. cbn [rbind]. apply (proj2 (IH _ _ _ _) H2).
 Qed.
 
+(* rendering A ++ B succeeds exactly when A's elements succeed from the entry
+   state and then B's elements succeed from the state A left; at the end the
+   caller's template name is put back *)
 Lemma render_app_ok reg data ft f name A B mp mpA mpB s s' :
   render_template reg data ft (S f) (MkT name (A ++ B) mp) s = ROk tt s' <->
-  exists s1, render_template reg data ft (S f) (MkT name A mpA) s = ROk tt s1 /\
-             fold_idx (fun e idx s' => rmap_err (render_element reg data ft f e s')
-                                                (attach_render (MkT name B mpB) idx))
-                      B 0%nat s1 = ROk tt s'.
+  exists s1 s2,
+    fold_idx (fun e idx s' => rmap_err (render_element reg data ft f e s')
+                                       (attach_render (MkT name A mpA) idx))
+             A 0%nat (set_current s name) = ROk tt s1 /\
+    fold_idx (fun e idx s' => rmap_err (render_element reg data ft f e s')
+                                       (attach_render (MkT name B mpB) idx))
+             B 0%nat s1 = ROk tt s2 /\
+    s' = set_current s2 (s_current s).
 Proof.
-  rewrite render_app, render_template_eq. cbn [t_els t_name].
+  rewrite render_app.
   assert (Hst : forall t1 t2 (x : element) (i j : nat) s0 s0',
              rmap_err (render_element reg data ft f x s0) (attach_render t1 i) = ROk tt s0' <->
              rmap_err (render_element reg data ft f x s0) (attach_render t2 j) = ROk tt s0').
   { intros. rewrite !rmap_err_ok_iff. reflexivity. }
   split.
-  - intros H. apply rbind_ok in H. destruct H as ([] & s1 & H1 & H2). exists s1. split.
+  - intros H. apply rbind_ok in H. destruct H as ([] & s1 & H1 & H2).
+    apply rbind_ok in H2. destruct H2 as ([] & s2 & H2 & H3). injection H3 as <-.
+    exists s1, s2. split; [|split; [|reflexivity]].
     + eapply fold_idx_step_ok; [|exact H1]. intros; apply Hst.
     + eapply fold_idx_step_ok; [|exact H2]. intros; apply Hst.
-  - intros (s1 & H1 & H2).
+  - intros (s1 & s2 & H1 & H2 & ->).
     eapply (fold_idx_step_ok _ _ (fun x i j s0 s0' => Hst (MkT name A mpA) (MkT name (A ++ B) mp) x i j s0 s0')) in H1.
     rewrite H1. cbn [rbind].
-    eapply fold_idx_step_ok; [|exact H2]. intros; apply Hst.
+    eapply (fold_idx_step_ok _ _ (fun x i j s0 s0' => Hst (MkT name B mpB) (MkT name (A ++ B) mp) x i j s0 s0')) in H2.
+    rewrite H2. reflexivity.
+Qed.
+
+(* the elements of a template alone, from a state whose current name is
+   already the template's *)
+Lemma render_template_ok reg data ft f t s s' :
+  render_template reg data ft (S f) t s = ROk tt s' <->
+  exists s2, fold_idx (fun e idx s' => rmap_err (render_element reg data ft f e s') (attach_render t idx))
+                      (t_els t) 0%nat (set_current s (t_name t)) = ROk tt s2 /\
+             s' = set_current s2 (s_current s).
+Proof.
+  rewrite render_template_eq. split.
+  - intros H. apply rbind_ok in H. destruct H as ([] & s2 & H1 & H2). injection H2 as <-. eauto.
+  - intros (s2 & H1 & ->). rewrite H1. reflexivity.
 Qed.
 
 (* ================= (b) frame ================= *)
@@ -64,7 +89,8 @@ Proof. unfold restored. intuition congruence. Qed.
 (* like restored, but only the tail of the block stack is kept (the each
    helper rewrites the block it pushed, between iterations) *)
 Definition restored_tl (s s' : rstate) : Prop :=
-  tl (s_blocks s') = tl (s_blocks s) /\ s_pb_stack s' = s_pb_stack s /\ s_indent s' = s_indent s /\
+  tl (s_blocks s') = tl (s_blocks s) /\ s_pb_stack s' = s_pb_stack s /\ s_pb_depth s' = s_pb_depth s /\
+  s_current s' = s_current s /\ s_indent s' = s_indent s /\
   s_root s' = s_root s /\ s_dev s' = s_dev s /\
   (s_disable_escape s' = true -> s_disable_escape s = true).
 Lemma restored_tl_refl s : restored_tl s s.
@@ -264,7 +290,8 @@ Section Frame.
 
     Lemma f_render_template t s a s' : render_template reg data ft (S f) t s = ROk a s' -> restored s s'.
     Proof.
-      rewrite render_template_eq. destruct a. intros H.
+      rewrite render_template_eq. intros H.
+      apply rbind_ok in H. destruct H as ([] & s1 & H & H2). injection H2 as _ <-.
       apply (fold_idx_inv restored) in H; [res|apply restored_refl|apply restored_trans|].
       intros x i s0 s0' _ H0. fin.
     Qed.
@@ -360,8 +387,10 @@ Section Frame.
     Proof.
       rewrite expand_partial_eq. cbv zeta. intros H. inv; leafs;
         repeat match goal with
-               | H : context [if ?c then set_pb_depth _ _ else _] |- _ => destruct c
-               | |- context [if ?c then set_pb_depth _ _ else _] => destruct c
+               | H : context [if str_eqb ?a ?b then _ else _] |- _ => destruct (str_eqb a b)
+               | |- context [if str_eqb ?a ?b then _ else _] => destruct (str_eqb a b)
+               | H : context [match current_pb ?x with _ => _ end] |- _ => destruct (current_pb x) as [[? ?]|]
+               | |- context [match current_pb ?x with _ => _ end] => destruct (current_pb x) as [[? ?]|]
                end; res2.
     Qed.
 
@@ -395,56 +424,69 @@ Proof. apply (fr_render_template _ _ _ _ (frame_all reg data ft fuel)). Qed.
 Theorem frame_element_eq reg data ft fuel e s s' :
   s_disable_escape s = false ->
   render_element reg data ft fuel e s = ROk tt s' ->
-  s_blocks s' = s_blocks s /\ s_pb_stack s' = s_pb_stack s /\ s_indent s' = s_indent s /\
+  s_blocks s' = s_blocks s /\ s_pb_stack s' = s_pb_stack s /\ s_pb_depth s' = s_pb_depth s /\
+  s_current s' = s_current s /\ s_indent s' = s_indent s /\
   s_root s' = s_root s /\ s_dev s' = s_dev s /\ s_disable_escape s' = s_disable_escape s.
 Proof.
   intros Hf H. apply frame_element in H. unfold restored in H.
-  destruct H as (H1 & H2 & H3 & H4 & H5 & H6). repeat split; try assumption.
-  rewrite Hf. destruct (s_disable_escape s'); [|reflexivity]. rewrite H6 in Hf; [discriminate Hf|reflexivity].
+  destruct H as (H1 & H2 & H3 & H4 & H5 & H6 & H7 & H8). repeat split; try assumption.
+  rewrite Hf. destruct (s_disable_escape s'); [|reflexivity]. rewrite H8 in Hf; [discriminate Hf|reflexivity].
 Qed.
 
-(* ---------- the two claims of the property that are false of the model ---------- *)
+(* the @partial-block binding after any finished element is the one before it *)
+Lemma restored_current_pb s s' : restored s s' -> current_pb s' = current_pb s.
+Proof. intros (_ & H2 & H3 & _). unfold current_pb. rewrite H2, H3. reflexivity. Qed.
+Lemma restored_partial_block s s' : restored s s' -> get_partial s' PARTIAL_BLOCK = get_partial s PARTIAL_BLOCK.
+Proof. intros H. unfold get_partial. rewrite (restored_current_pb _ _ H). reflexivity. Qed.
+
+(* a run of elements: the state before each of them is `restored` with respect
+   to the state before the first *)
+Lemma frame_elements reg data ft f (g : nat -> rerror -> rerror) l : forall i s s',
+  fold_idx (fun e idx s' => rmap_err (render_element reg data ft f e s') (g idx)) l i s = ROk tt s' ->
+  restored s s'.
+Proof.
+  apply (fold_idx_inv restored); [apply restored_refl|apply restored_trans|].
+  intros x i s0 s0' _ H. apply rmap_err_ok in H. eapply frame_element; exact H.
+Qed.
+
+(* ---------- the former findings F3 and F4, now restored ---------- *)
 Definition reg_with_strings (l : list (str * str)) : registry :=
   fold_left (fun r kv => fst (register_template_string r (fst kv) (snd kv))) l reg_new.
 Definition reg_tpl (r : registry) (n : str) : template :=
   match map_get (r_templates r) n with Some t => t | None => t_empty end.
 
-(* F3: a finished partial block leaves the partial-block depth changed *)
+(* (was F3) a finished partial block leaves the partial-block depth as it was *)
 Definition f3_reg : registry :=
   reg_with_strings [(`"p", `"{{> @partial-block}}"); (`"m", `"{{#> p}}D{{/p}}")].
 
-Theorem refuted_depth :
-  exists reg data ft fuel t d s s',
-    t_els t = [ElPartBlock d] /\
-    render_template reg data ft fuel t s = ROk tt s' /\
+Example depth_restored_ex :
+  exists d s',
+    t_els (reg_tpl f3_reg (`"m")) = [ElPartBlock d] /\
+    render_template f3_reg JNull [] 20 (reg_tpl f3_reg (`"m")) (st_init (Some (`"m")) None None) = ROk tt s' /\
     out_text (s_out s') = `"D" /\
-    s_pb_depth s' <> s_pb_depth s.
+    s_pb_depth s' = s_pb_depth (st_init (Some (`"m")) None None).
 Proof.
-  exists f3_reg, JNull, [], 20%nat, (reg_tpl f3_reg (`"m")).
-  eexists. exists (st_init (Some (`"m")) None None). eexists.
+  do 2 eexists.
   split; [vm_compute; reflexivity|].
   split; [vm_compute; reflexivity|].
-  split; [vm_compute; reflexivity|]. vm_compute. discriminate.
+  split; vm_compute; reflexivity.
 Qed.
 
-(* F4: a finished block helper leaves the current template name cleared *)
+(* (was F4) a finished block helper leaves the current template name as it was *)
 Definition f4_reg : registry := reg_with_strings [(`"t", `"{{#if true}}x{{/if}}")].
 
-Theorem refuted_current_template :
-  exists reg data ft fuel t e s s',
-    t_name t = Some (`"t") /\ t_els t = [e] /\ s_current s = t_name t /\
-    render_element reg data ft fuel e s = ROk tt s' /\
+Example current_template_restored_ex :
+  exists e s',
+    t_name (reg_tpl f4_reg (`"t")) = Some (`"t") /\ t_els (reg_tpl f4_reg (`"t")) = [e] /\
+    render_element f4_reg JNull [] 20 e (set_current (st_init (Some (`"t")) None None) (Some (`"t"))) = ROk tt s' /\
     out_text (s_out s') = `"x" /\
-    s_current s' = None /\ s_current s' <> s_current s.
+    s_current s' = Some (`"t").
 Proof.
-  exists f4_reg, JNull, [], 20%nat, (reg_tpl f4_reg (`"t")).
-  eexists. exists (set_current (st_init (Some (`"t")) None None) (Some (`"t"))). eexists.
+  do 2 eexists.
   split; [vm_compute; reflexivity|].
   split; [vm_compute; reflexivity|].
   split; [vm_compute; reflexivity|].
-  split; [vm_compute; reflexivity|].
-  split; [vm_compute; reflexivity|].
-  split; [vm_compute; reflexivity|]. vm_compute. discriminate.
+  split; vm_compute; reflexivity.
 Qed.
 
 Example frame_element_ex :
